@@ -89,12 +89,17 @@ func (g *txtGen) term(allowVar, allowSet bool) (string, STerm) {
 			n := 1 + r.Intn(3)
 			var parts []string
 			set := STerm{IsSet: true}
+			kind := -1
 			for i := 0; i < n; i++ {
 				for {
 					t, v := g.term(false, false)
 					if g.printable && v.Kind() == KStr {
 						continue // sets of strings do not print as strings
 					}
+					if g.printable && kind >= 0 && v.Kind() != kind {
+						continue // a token can only carry homogeneous sets
+					}
+					kind = v.Kind()
 					parts = append(parts, t)
 					set.Set = append(set.Set, v.A)
 					break
